@@ -614,10 +614,11 @@ FLAGS = [
     'mixed_case',       # identifiers are spelled in varying letter case (layout idcase = mixed)
     'const_elseif',     # an ELSE IF branch may have a compile-time constant condition
     'site_if1_call',    # one-line IF whose statement is a CALL to an internal subroutine
+    'lb_inquiry',       # LBOUND / UBOUND inquiry on an array dummy whose lower bound is not 1
 ]
 # probability (percent) of a flag being on; default FLAG_PCT
 FLAG_PCT = 45
-FLAG_PCTS = {'int_fun': 15, 'opt_absent': 30, 'mixed_case': 30, 'routine_use': 30, 'unmarked_mix': 30}
+FLAG_PCTS = {'int_fun': 15, 'fn_in_elseif': 12, 'opt_absent': 30, 'mixed_case': 30, 'routine_use': 30, 'unmarked_mix': 30}
 SIZES = {'subs': (1, 3), 'funs': (1, 2), 'sites': (0, 3), 'fill': (0, 2), 'ints': (1, 2), 'sfs': (1, 2), 'params': (1, 3)}
 SIZE_MIN = {'subs': 1, 'funs': 1, 'sites': 0, 'fill': 0, 'ints': 1, 'sfs': 1, 'params': 1}
 STREAMS = ['kernel', 'sites', 'sub0', 'sub1', 'sub2', 'fun0', 'fun1', 'int0', 'int1', 'sf', 'par', 'inputs', 'layout']
@@ -917,10 +918,39 @@ def make_sub(b, g, name, idx, earlier_subs, funs, host=None, internal=False):
         # a plain RETURN as last statement: legal, no effect in the callee, and always executed
         body.append(['return'])
         b.use('callee_return')
+    if arr and env.vars[arr[0]]['dims'][0][0] != 1 and 'lb_inquiry' in b.fl:
+        lo_, hi_ = env.vars[arr[0]]['dims'][0]
+        if F('lb_inquiry'):
+            if _bound_inquiries(body, arr[0], None)[0]:
+                b.use('lb_inquiry')
+        else:
+            # the same program with the inquiry folded to its value
+            body = _bound_inquiries(body, arr[0], (lo_, hi_))[1]
     r = routine(name, [d['name'] for d in dummies], decls, body)
     sig = {'name': name, 'dummies': dummies, 'internal': internal, 'hread': sorted(hread), 'hwrite': sorted(hwrite),
            'calls': nested_sig, 'kind': 'sub'}
     return r, sig
+
+
+def _bound_inquiries(e, name, fold):
+    """(found, e') for LBOUND/UBOUND(name[, 1]) inside statement/expression JSON; fold=(lb, ub) replaces them by literals"""
+    if isinstance(e, list):
+        if len(e) == 4 and e[0] == 'f' and e[1] in ('lbound', 'ubound') and e[2] and e[2][0] == var(name):
+            return True, (e if fold is None else lit(fold[0] if e[1] == 'lbound' else fold[1]))
+        found, out = False, []
+        for x in e:
+            f_, y = _bound_inquiries(x, name, fold)
+            found = found or f_
+            out.append(y)
+        return found, out
+    if isinstance(e, dict):
+        found, out = False, {}
+        for k, x in e.items():
+            f_, y = _bound_inquiries(x, name, fold)
+            found = found or f_
+            out[k] = y
+        return found, out
+    return False, e
 
 
 def make_fun(b, g, name, idx, earlier_funs, elemental=False, host=None, internal=False):
